@@ -24,11 +24,14 @@ enum Call {
     Get,
     /// register_ts of a stamp `ahead_ms` ahead of the base wall reading, from `node`.
     Reg { ahead_ms: u64, counter: u16, node: u8 },
+    /// `n` get_time calls issued at once by one task (n = the capacity of the clock's request
+    /// queue saturates it: what "however many tasks" means for a bounded queue)
+    Flood(usize),
 }
 
 fn remote(c: Call) -> Option<HLCTimestamp> {
     match c {
-        Call::Get => None,
+        Call::Get | Call::Flood(_) => None,
         Call::Reg { ahead_ms, counter, node } => Some(HLCTimestamp::new(
             Duration::from_secs(BASE) + Duration::from_millis(ahead_ms),
             counter,
@@ -123,7 +126,18 @@ fn run_one(progs: &[Vec<Call>], mode: Wall, prefix: &[usize]) -> (Run, Obs) {
                             l.0 += 1;
                             l.0
                         };
+                        if let Call::Flood(n) = call {
+                            let all = futures::future::join_all((0..n).map(|_| clock.get_time())).await;
+                            let mut l = log.borrow_mut();
+                            l.0 += 1;
+                            let end = l.0;
+                            for (i, ts) in all.into_iter().enumerate() {
+                                l.1.push(Rec { task, idx: idx * 100_000 + i, call: Call::Get, start, end, result: Some(ts.as_u64()) });
+                            }
+                            continue;
+                        }
                         let result = match call {
+                            Call::Flood(_) => unreachable!(),
                             Call::Get => Some(clock.get_time().await.as_u64()),
                             Call::Reg { .. } => {
                                 clock.register_ts(remote(call).unwrap()).await;
@@ -174,7 +188,7 @@ fn judge(progs: &[Vec<Call>], mode: Wall, run: &Run, obs: &Obs, st: &mut Stats) 
         st.violation_ranked("deadlock", rank, || "clients never finished".to_string(), case);
         return;
     }
-    let expected: usize = progs.iter().map(|p| p.len()).sum();
+    let expected: usize = progs.iter().flatten().map(|c| if let Call::Flood(n) = c { *n } else { 1 }).sum();
     if obs.len() != expected {
         st.violation_ranked("harness/calls-missing", rank, || format!("{} of {expected} calls completed", obs.len()), case);
         return;
@@ -278,6 +292,14 @@ pub fn run(tier: Tier) -> i32 {
                 scenarios += 1;
                 explore_scenario(&[progs[a].clone(), progs[b].clone()], mode, None, &mut total, &mut summary);
             }
+        }
+    }
+    // a saturated clock: one task has as many requests in flight as the clock's queue holds
+    // (1000) while another registers a remote stamp and then asks for the time
+    for second in [vec![R_AHEAD, Call::Get], vec![Call::Get, R_AHEAD, Call::Get]] {
+        for mode in [Wall::Stall, Wall::Tick4ms] {
+            scenarios += 1;
+            explore_scenario(&[vec![Call::Flood(1000)], second.clone()], mode, Some(tier.pick(2, 3)), &mut total, &mut summary);
         }
     }
     // k = 3: deviation bound
